@@ -317,7 +317,7 @@ def r07_5(ctx):
                 whole = x
             if whole is not None:
                 gs = fl.guards_at(whole) or set()
-                if not (rm and (ast.unparse(rm[0].func.value), False) in gs):
+                if not (rm and ((ast.unparse(rm[0].func.value), False) in gs or (res.text(rm[0].func.value), False) in gs)):
                     msgs.append(f"the previous target's whole alias list is dropped (line {whole.lineno}) although other aliases may remain")
         (ctx.bad(construct, "; ".join(msgs), f.loc(d)) if msgs else ctx.ok(construct, f.loc(d)))
 
